@@ -6,7 +6,9 @@
 #ifndef CVS_SREAL_H
 #define CVS_SREAL_H
 #include <cvs_base.h>
+#ifndef T_NT
 #define T_NT 48
+#endif
 #define T_LEAF 1
 #define T_ADD 2
 #define T_SUB 3
